@@ -129,7 +129,7 @@ func (e *cpEngine) evalLookup(fr *cpFrame, x *ssa.Lookup) cpVal {
 			if i.V < 0 || i.V >= s.Len {
 				e.fail("panic-instr")
 			}
-			return cpUnk{ID: fmt.Sprintf("%s[%d]", s.ID, s.Off+i.V), Deps: fmt.Sprintf(",%d,", s.Off+i.V)}
+			return cpByteIdent(fmt.Sprintf("%s[%d]", s.ID, s.Off+i.V), s.Off+i.V)
 		}
 		e.fail("a symbolic string indexed at an unknown position")
 	}
